@@ -1,6 +1,6 @@
 SPECIFICATION TraceSpec
 CONSTANTS
-  Scenarios = {}
+  ScenarioSets <- TNone
   Order = "textual"
   Dev <- TDev
 CONSTRAINT Progress
